@@ -275,6 +275,40 @@ class Gen:
                     w = f["rename"]
             seen.add(w)
 
+    def length_family(self, d, vnames, avail, byname):
+        """untagged enum whose variants are arrays that only the LENGTH tells apart (same item types), in random
+        declaration order: tuple variants, newtype variants over tuples / fixed arrays / tuple structs."""
+        r = self.r
+        base = [r.choice([T("int", n="u32"), T("string"), T("bool"), T("int", n="i64"), T("float", n="f64")])
+                for _ in range(4)]
+        lens = r.sample([1, 2, 3, 4], r.choice([2, 2, 3]))
+        if "one-tuple" in self.p.get("exclude", ()):
+            lens = [x for x in lens if x != 1] or [2, 3]
+        mode = r.choice(["tuple", "tuple", "array", "mixed"])
+        tstructs = {len(byname[a]["tys"]): a for a in avail if byname[a]["kind"] == "tuple_struct"}
+        out = []
+        names = list(vnames) + [x for x in VARIANT_NAMES if x not in vnames]
+        for i, n in enumerate(lens):
+            v = {"name": names[i], "rename": None, "kind": "newtype", "tys": [], "fields": [], "rename_all": None}
+            if mode == "array":
+                v["tys"] = [T("array", t=base[0], n=n)]
+            elif n in tstructs and r.random() < 0.3:
+                v["tys"] = [T("ref", name=tstructs[n])]
+            elif n >= 2 and (mode == "tuple" or r.random() < 0.6) and r.random() < 0.7:
+                v["kind"] = "tuple"
+                v["tys"] = [base[k] for k in range(n)]
+            else:
+                v["tys"] = [T("tuple", ts=[base[k] for k in range(n)])]
+            out.append(v)
+        x = r.random()
+        if x < 0.3:
+            out.insert(r.randrange(len(out) + 1), {"name": names[len(lens)], "rename": None, "kind": "unit", "tys": [],
+                                                   "fields": [], "rename_all": None})
+        elif x < 0.5:
+            out.insert(r.randrange(len(out) + 1), {"name": names[len(lens)], "rename": None, "kind": "newtype",
+                                                   "tys": [T("string")], "fields": [], "rename_all": None})
+        d["variants"] = out
+
     def enum(self, nm, avail, byname, defaultable, rec):
         r = self.r
         x = r.random()
@@ -330,16 +364,18 @@ class Gen:
             if self.on("variant-rename", 0.12):
                 v["rename"] = r.choice(VARIANT_RENAMES)
             d["variants"].append(v)
+        if tagging["k"] == "untagged" and r.random() < 0.4:
+            self.length_family(d, vnames, avail, byname)
         if tagging["k"] == "untagged" and "untagged-overlap" in self.p.get("exclude", ()):
-            # keep only variants whose JSON kinds are pairwise disjoint (typify turns an untagged enum whose
-            # subschemas it cannot prove mutually exclusive into a flattened struct: finding C04-1)
-            acc, keep = set(), []
+            # keep only variants that are pairwise distinguishable from the JSON alone (by JSON type, array length /
+            # item types, required members).  An untagged enum typify cannot prove exclusive becomes a flattened
+            # struct: finding C04-1 (curated witnesses); for a DISTINGUISHABLE enum that outcome is a violation.
+            keep = []
             for v in d["variants"]:
-                ks = variant_kinds(v, byname)
-                if "complex" in ks or (ks & acc):
+                if "complex" in variant_kinds(v, byname):
                     continue
-                acc |= ks
-                keep.append(v)
+                if all(variants_distinguishable(v, w, byname) and not known_array_vs_tuple_gap(v, w, byname) for w in keep):
+                    keep.append(v)
             if not keep:
                 v = d["variants"][0]
                 v.update({"kind": "unit", "tys": [], "fields": [], "rename_all": None})
@@ -434,6 +470,113 @@ def variant_kinds(v, byname):
     if v["kind"] == "tuple":
         return {"array"}
     return {"object"}
+
+
+# ---- independent predicate: can two variants of an untagged enum be told apart from the JSON alone?
+def scalar_json_type(t):
+    t = strip_box(t)
+    return {"bool": "boolean", "int": "integer", "float": "number", "string": "string", "unit": "null"}.get(t["k"])
+
+
+def array_shape(t, byname, depth=0):
+    """("tuple", [item types]) | ("single", item type, fixed length or None) | None"""
+    t = strip_box(t)
+    k = t["k"]
+    if k == "tuple":
+        return ("tuple", list(t["ts"]))
+    if k == "array":
+        return ("single", t["t"], t["n"])
+    if k == "vec":
+        return ("single", t["t"], None)
+    if k == "ref" and depth < 4:
+        d = byname.get(t["name"])
+        if d is None:
+            return None
+        if d["kind"] == "tuple_struct":
+            return ("tuple", list(d["tys"]))
+        if d["kind"] == "newtype" and strip_box(d["ty"])["k"] != "ref":
+            return array_shape(d["ty"], byname, depth + 1)
+    return None
+
+
+def variant_array_shape(v, byname):
+    if v["kind"] == "tuple":
+        return ("tuple", list(v["tys"]))
+    if v["kind"] == "newtype":
+        return array_shape(v["tys"][0], byname)
+    return None
+
+
+def shape_len(sh):
+    return len(sh[1]) if sh[0] == "tuple" else sh[2]
+
+
+def items_exclusive(a, b):
+    x, y = scalar_json_type(a), scalar_json_type(b)
+    return x is not None and y is not None and x != y
+
+
+def field_required(f, cdefault=False):
+    return not (f.get("default") or "default_val" in f or cdefault or strip_box(f["ty"])["k"] == "option")
+
+
+def variant_object_shape(v, byname):
+    """(required wire names, all wire names) of a struct-shaped variant, else None"""
+    if v["kind"] == "struct":
+        return ({field_wire(f, v.get("rename_all")) for f in v["fields"] if field_required(f)},
+                {field_wire(f, v.get("rename_all")) for f in v["fields"]})
+    if v["kind"] == "newtype":
+        t = strip_box(v["tys"][0])
+        if t["k"] == "ref":
+            d = byname.get(t["name"])
+            if d is not None and d["kind"] == "struct":
+                return ({field_wire(f, d["rename_all"]) for f in d["fields"] if field_required(f, d["cdefault"])},
+                        {field_wire(f, d["rename_all"]) for f in d["fields"]})
+    return None
+
+
+def variants_distinguishable(v, w, byname):
+    """by JSON type, by array length / item types, by required members (the specification the property text
+    implies: serde can tell the variants apart, so a faithful T' must exist)."""
+    kv, kw = variant_kinds(v, byname), variant_kinds(w, byname)
+    if "complex" in kv or "complex" in kw:
+        return False
+    if not (kv & kw):
+        return True
+    if kv == {"array"} and kw == {"array"}:
+        a, b = variant_array_shape(v, byname), variant_array_shape(w, byname)
+        if a is None or b is None:
+            return False
+        la, lb = shape_len(a), shape_len(b)
+        if la is not None and lb is not None and la != lb:
+            return True
+        if a[0] == "single" and b[0] == "single":
+            return items_exclusive(a[1], b[1])
+        if a[0] == "single" or b[0] == "single":
+            single, tup = (a, b) if a[0] == "single" else (b, a)
+            return any(items_exclusive(single[1], x) for x in tup[1])
+        return False
+    if kv == {"object"} and kw == {"object"}:
+        a, b = variant_object_shape(v, byname), variant_object_shape(w, byname)
+        if a is None or b is None:
+            return False
+        return bool(a[0] - b[1]) or bool(b[0] - a[1])
+    return False
+
+
+def known_array_vs_tuple_gap(v, w, byname):
+    """finding C04-1 sub-shape on the unchanged tree: a fixed array / Vec (single item schema) against a tuple is
+    compared by item types only (util.rs:393-424), never by length."""
+    a, b = variant_array_shape(v, byname), variant_array_shape(w, byname)
+    if a is None or b is None or a[0] == b[0]:
+        return False
+    single, tup = (a, b) if a[0] == "single" else (b, a)
+    return not any(items_exclusive(single[1], x) for x in tup[1])
+
+
+def untagged_distinguishable(d, byname):
+    vs = d["variants"]
+    return all(variants_distinguishable(vs[i], vs[j], byname) for i in range(len(vs)) for j in range(i + 1, len(vs)))
 
 
 # constructs excluded from the random stream: each is a recorded finding (or a C01-territory rejection)
